@@ -224,6 +224,10 @@ fn check_enum(t: &Table, skip_rows: &[usize]) -> Result<(), Failure> {
             continue;
         }
         let code = (r.eval)();
+        if code != r.expect {
+            // reported by the row's own case (wrong_code / maps_to_ok); a collision it causes is the same defect
+            continue;
+        }
         if let Some((_, k, n)) = seen.iter().find(|(c, k, _)| *c == code && *k != r.key.as_str()) {
             return Err(Failure::new(format!("errmap.collision.{}", t.rust_enum), format!("{} and {} (keys {} / {}) both map to code {} of {}", n, r.name, k, r.key, code, t.c_enum)));
         }
@@ -309,13 +313,13 @@ pub fn part(ctx: &mut Ctx) {
                 // some conversions do not return (unbounded recursion): a forked child with a limit
                 // four orders of magnitude above the normal duration
                 let sig = no_return_sig(&r.sig);
-                let (_, res) = Ctx::forked(Duration::from_secs(20), &sig, |_| check_row(t, r));
+                let (_, res) = Ctx::forked(Duration::from_secs(5), &sig, |_| check_row(t, r));
                 res
             }
             None => {
                 obs.class("errmap.enum");
                 let sk = skip[case.table].clone();
-                let (_, res) = Ctx::forked(Duration::from_secs(30), &format!("errmap.no_return.{}", t.rust_enum), |_| check_enum(t, &sk));
+                let (_, res) = Ctx::forked(Duration::from_secs(5), &format!("errmap.no_return.{}", t.rust_enum), |_| check_enum(t, &sk));
                 res
             }
         }
